@@ -8,11 +8,19 @@ from implutil import ints, exc_name
 RULE = ('case = (many-valued table: column types from {IntervalPS, IntervalNumpyPS, SetPS, AttributePS}, one cell per '
         'object and column) x kind in {cl: closure laws on all given non-empty object lists; conj: extension_i of '
         'descriptions (dict orders, partial dicts) x base lists; bin: binarize(); lat: ConceptLattice.from_context with '
-        'n_projections_to_binarize in {0,1000}}.  Exhaustive over all small tables, then seeded random larger tables. '
+        'n_projections_to_binarize in {0,1000}; hist: first use of ONE context object (n_bin_attrs, binarize, both mining '
+        'paths, closures, ...) -> mutation through a public setter (ps.data = .., K.pattern_structures = .., K.object_names '
+        '= ..) or in-place scribbling on returned values / the caller\'s own inputs -> second use, judged by the property '
+        'on the CURRENT content}.  Object lists for closures / from_objects and base lists include repetitions, every '
+        'order, tuples, arrays and sets; interval ends are mapped through order-preserving scales with values float32 '
+        'cannot hold and +-inf.  Exhaustive over all small tables, then seeded random larger tables. '
         'Tables for which BottomOK fails (AttributePS empty-set convention, finding D17) are kept in their own streams. '
         'non-trivial = at least 2 rows, not all rows equal; distinct = distinct (kind, types, cells, extra arguments)')
 EXHAUSTIVE = {
-    'quick': 'object-wise stream first: all 4-row x 2-column tables over {IntervalPS on {0,1}: 2 points + 1 interval, '
+    'quick': 'histories: every 2-row one-column table (IntervalPS, IntervalNumpyPS, SetPS, AttributePS) replaced by every '
+             'other one through ps.data after a full first use, judged as bin/lat/cl on the new content; all 1-column '
+             'IntervalNumpyPS tables with <=3 rows and 2-column tables with <=2 rows containing one; closure laws on EVERY '
+             'index list of length <= n (repetitions included) for n <= 3; then the object-wise stream: all 4-row x 2-column tables over {IntervalPS on {0,1}: 2 points + 1 interval, '
              'SetPS over subsets of {a}, AttributePS} and 300 random 5-7-row tables of shuffled duplicated/nested rows, '
              'each mined with n_projections_to_binarize in {0,1000}; then all tables with <=3 rows x <=2 columns over {IntervalPS on the grid {0,1,2}: 3 points + 3 proper intervals '
              '(3x2 tables: 2 points + 2 intervals), SetPS over subsets of {a,b}, AttributePS}; per table: all non-empty '
@@ -31,7 +39,7 @@ EXPLANATION = ('Lean proves, for every many-valued context with BottomOK, that a
                'not BottomOK are classified under the known finding C14:attributeps-empty-set-convention.')
 ASSUMPTIONS = ['every many-valued context has >= 1 object and >= 1 pattern structure; cells are valid for their structure',
                'interval ends are integral floats (exactly representable); SetPS symbols are single letters',
-               'object index arguments are duplicate-free lists of valid indexes',
+               'object index arguments are lists/tuples (bases also arrays and sets) of valid indexes, repetitions allowed',
                'descriptions passed to extension_i have the shape of their column (dict keys are valid column indexes)']
 TRUSTED = ['the worklist loops of close_by_one_objectwise(_fbarray) are the machine cboLoop of Model/CbO (property C02) run with '
            'the many-valued intention_i/extension_i resp. on the binarised table',
@@ -109,7 +117,8 @@ def fill(c, rng=None):
     n = len(c['rows'])
     if c['kind'] == 'cl':
         if n <= 3:
-            c['subsets'] = [s for s in G.ordered_sublists(range(n)) if s]
+            # every non-empty index list of length <= n, repetitions and every order included
+            c['subsets'] = [list(p) for k in range(1, n + 1) for p in itertools.product(range(n), repeat=k)]
         else:
             subs = [s for s in G.sorted_sublists(range(n)) if s]
             if n > 4:
@@ -121,15 +130,22 @@ def fill(c, rng=None):
                     t = list(s)
                     r.shuffle(t)
                     extra.append(t)
+            # index lists with repetitions: "bootstrap samples" of exactly n draws, and of other lengths
+            for _ in range(10):
+                extra.append([r.randrange(n) for _k in range(n)])
+            for _ in range(6):
+                extra.append([r.randrange(n) for _k in range(r.randint(1, 2 * n))])
             c['subsets'] = subs + extra
     elif c['kind'] == 'conj':
         if 'descs' not in c:
             c['descs'] = all_descs(c['types'])
         if n <= 3:
-            c['bases'] = [None] + list(G.ordered_sublists(range(n)))
+            # None, and every index list of length <= n (repetitions and every order included)
+            c['bases'] = [None] + [list(p) for k in range(n + 1) for p in itertools.product(range(n), repeat=k)]
         else:
             r = rng or random.Random(n)
-            c['bases'] = [None, []] + [G.random_sel(r, n) for _ in range(6)]
+            c['bases'] = [None, []] + [G.random_sel(r, n) for _ in range(4)] + \
+                [[r.randrange(n) for _k in range(r.randint(1, n + 2))] for _ in range(4)]
     return c
 
 
@@ -137,7 +153,7 @@ NOTBOTTOM_CAP = 80   # tables; the runner stops a run after 200 failing cases, k
 _notbottom_seen = [0]
 
 
-def table_cases(types, rows, stream, kinds=('cl', 'conj', 'bin', 'lat'), rng=None, descs=None):
+def table_cases(types, rows, stream, kinds=('cl', 'conj', 'bin', 'lat'), rng=None, descs=None, scale=None):
     if not bottom_ok_py(types, rows):
         stream = stream + '-notbottomok'
         _notbottom_seen[0] += 1
@@ -146,6 +162,8 @@ def table_cases(types, rows, stream, kinds=('cl', 'conj', 'bin', 'lat'), rng=Non
             kinds = tuple(k for k in kinds if k in ('cl', 'conj'))
     for kind in kinds:
         c = dict(stream=stream, kind=kind, types=list(types), rows=[list(r) for r in rows])
+        if scale is not None:
+            c['scale'] = scale
         if kind == 'conj' and descs is not None:
             c['descs'] = descs
         yield fill(c, rng)
@@ -234,6 +252,53 @@ def pooled_table(rng):
     return types, rows
 
 
+def hist_cases(types, rows0, rows, stream, mut, pre, rng=None, names2=None, scale=None, subs=('bin', 'lat', 'cl'),
+               all_cols=False):
+    """use -> mutate -> use on one object; the second use is judged on the final content `rows`"""
+    if not bottom_ok_py(types, rows):
+        subs = tuple(x for x in subs if x == 'cl')     # D17 tables: only what the known finding does not touch
+    for sub in subs:
+        c = dict(stream=stream, kind='hist', sub=sub, types=list(types), rows0=[list(r) for r in rows0],
+                 rows=[list(r) for r in rows], mut=mut, pre=list(pre))
+        if names2 is not None:
+            c['names2'] = names2
+        if scale is not None:
+            c['scale'] = scale
+        if all_cols:
+            c['all_cols'] = True
+        if sub == 'cl':
+            c['subsets'] = fill(dict(kind='cl', rows=c['rows']), rng)['subsets']
+        yield c
+
+
+def mutate_rows(rng, types, rows, grid, syms):
+    """a different table of the same shape: a column redrawn, a cell changed, two rows swapped, or all redrawn"""
+    n = len(rows)
+    new = [[list(v) if isinstance(v, list) else v for v in r] for r in rows]
+
+    def cell(t):
+        if t in 'IN':
+            a, b = sorted((rng.choice(grid), rng.choice(grid)))
+            return [a, a] if rng.random() < 0.5 else [a, b]
+        if t == 'S':
+            return sorted(rng.sample(range(syms), rng.randint(0, syms)))
+        return rng.randint(0, 1)
+    how = rng.choice(('column', 'column', 'cell', 'swap', 'all'))
+    if how == 'column':
+        j = rng.randrange(len(types))
+        for i in range(n):
+            new[i][j] = cell(types[j])
+    elif how == 'cell':
+        i, j = rng.randrange(n), rng.randrange(len(types))
+        new[i][j] = cell(types[j])
+    elif how == 'swap' and n > 1:
+        i, k = rng.sample(range(n), 2)
+        new[i], new[k] = new[k], new[i]
+    else:
+        new = [[cell(t) for t in types] for _ in range(n)]
+    return new
+
+
 def load_corpus():
     import json
     import os
@@ -265,6 +330,37 @@ def gen(tier, seed, boost=False):
     for _ in range(300 if tier == 'quick' else 3000):
         types, rows = pooled_table(rng)
         yield from table_cases(types, rows, 'objectwise-random', kinds=('cl', 'lat'), rng=rng)
+    # ---- histories on ONE context object: use -> public setter -> use again (judged on the current content) ----
+    # every 2-row one-column table replaced by every other one through `ps.data = ...` after everything was used once
+    for t in 'INSA':
+        tabs = list(tables(2, [t], [domain(t)]))
+        for rows0 in tabs:
+            for rows in tabs:
+                if rows0 != rows:
+                    yield from hist_cases([t], rows0, rows, 'history-2rows', 'data', PRE_OPS,
+                                          scale=SCALES[1] if t == 'N' else None)
+    for k in range(250 if tier == 'quick' else 2500):
+        grid = list(range(rng.choice((3, 5))))
+        syms = rng.choice((2, 3))
+        types, rows0 = random_table(rng, 5, 3, grid, syms)
+        if len(rows0) < 2:
+            continue
+        mut = rng.choice(('data', 'data', 'ps', 'hostile'))
+        rows = rows0 if mut == 'hostile' else mutate_rows(rng, types, rows0, grid, syms)
+        pre = PRE_OPS if rng.random() < 0.6 else [op for op in PRE_OPS if rng.random() < 0.5]
+        names2 = [f'h{i}' for i in reversed(range(len(rows0)))] if rng.random() < 0.4 else None
+        yield from hist_cases(types, rows0, rows, 'history-random', mut, pre, rng=rng, names2=names2,
+                              scale=rng.choice(SCALES), all_cols=rng.random() < 0.3)
+    # ---- IntervalNumpyPS columns, small, with values that float32 cannot hold ----------------------------------
+    for n in (1, 2, 3):
+        for rows in tables(n, ['N'], [IV_FULL]):
+            yield from table_cases(['N'], rows, 'numpy-small', scale=SCALES[1])
+    for types in itertools.product('NISA', repeat=2):
+        if 'N' in types:
+            for n in (1, 2):
+                for rows in tables(n, types, [domain(t, IV_SMALL) for t in types]):
+                    yield from table_cases(types, rows, 'numpy-small', kinds=('cl', 'bin', 'lat'),
+                                           scale=SCALES[2] if n == 2 else None)
     # ---- exhaustive small scope ------------------------------------------------------------------------
     base_types = 'ISA'
     for n in (1, 2, 3):
@@ -323,32 +419,60 @@ def gen(tier, seed, boost=False):
         syms = rng.choice((2, 3))
         types, rows = random_table(rng, 6, 3, grid, syms)
         descs = [random_desc(rng, types, grid, syms) for _k in range(12)] + [[]]
-        yield from table_cases(types, rows, 'random', rng=rng, descs=descs)
+        yield from table_cases(types, rows, 'random', rng=rng, descs=descs, scale=rng.choice(SCALES))
 
 
 # ----------------------------------------------------------------------------------------------------------
 # implementation side
 
+# Interval ends live on an integer grid in the cases and in the Lean model; the implementation is fed the grid
+# point's image under a strictly increasing `scale` (the structures only compare, take min/max and copy values, so the
+# model is the same up to that order isomorphism).  The non-identity scales hold values that float32 cannot represent
+# and the infinities; a value that comes back changed (rounded, cast) is not found in the inverse table => failure.
+INF = float('inf')
+SCALES = [None,
+          [0.1, 19.99, 16777217.0, 16777218.5, 1e300],
+          [-INF, -19.99, 0.1, 16777217.0, INF]]
+_SCALE = [None]       # scale of the case being executed (set by _impl)
+
+
+def _up(x):
+    sc = _SCALE[0]
+    return float(x) if sc is None else sc[x]
+
+
 def _cell(t, v):
     if t in 'IN':
         a, b = v
-        return float(a) if a == b else (float(a), float(b))
+        return _up(a) if a == b else (_up(a), _up(b))
     if t == 'S':
         return {SYM[x] for x in v}
     return bool(v)
 
 
-def make_mv(c):
-    from fcapy.mvcontext import MVContext, pattern_structure as PS
-    cls = {'I': PS.IntervalPS, 'N': PS.IntervalNumpyPS, 'S': PS.SetPS, 'A': PS.AttributePS}
+def _ps_classes():
+    from fcapy.mvcontext import pattern_structure as PS
+    return {'I': PS.IntervalPS, 'N': PS.IntervalNumpyPS, 'S': PS.SetPS, 'A': PS.AttributePS}
+
+
+def make_mv(c, rows=None, obj_names=None):
+    from fcapy.mvcontext import MVContext
+    cls = _ps_classes()
+    _SCALE[0] = c.get('scale')
     names = [str(j) for j in range(len(c['types']))]
-    data = [[_cell(t, v) for t, v in zip(c['types'], r)] for r in c['rows']]
+    data = [[_cell(t, v) for t, v in zip(c['types'], r)] for r in (c['rows'] if rows is None else rows)]
     return MVContext(data, {nm: cls[t] for nm, t in zip(names, c['types'])}, attribute_names=names,
-                     object_names=[f'g{i}' for i in range(len(data))])
+                     object_names=obj_names or [f'g{i}' for i in range(len(data))])
 
 
 def _num(x):
     x = float(x)
+    sc = _SCALE[0]
+    if sc is not None:
+        for i, v in enumerate(sc):
+            if v == x:
+                return i
+        raise ValueError(f'interval end {x!r} is not a value of the table')
     if x != int(x):
         raise ValueError(f'non-integral interval end {x}')
     return int(x)
@@ -368,7 +492,7 @@ def canon_desc(types, d):
 
 def py_dval(v):
     if 'I' in v:
-        return None if v['I'] is None else (float(v['I'][0]), float(v['I'][1]))
+        return None if v['I'] is None else (_up(v['I'][0]), _up(v['I'][1]))
     if 'S' in v:
         return None if v['S'] is None else {SYM[x] for x in v['S']}
     return bool(v['B'])
@@ -396,7 +520,7 @@ _TIMED_OUT = set()      # cases (of this process) on which the implementation ra
 
 def _case_id(c):
     import json
-    return json.dumps([c['kind'], c['types'], c['rows']])
+    return json.dumps([c['kind'], c['types'], c['rows'], c.get('sub'), c.get('rows0'), c.get('mut')])
 
 
 class NonTermination(BaseException):     # not an Exception: the per-call handlers of _impl must not swallow it
@@ -425,18 +549,50 @@ def impl(c):
         signal.signal(signal.SIGALRM, old)
 
 
-def _impl(c):
-    K = make_mv(c)
+def _base_variant(j, base):
+    """how the j-th base list of a conj case is handed over: list / tuple / ndarray / set (sets only when duplicate-free)"""
+    if base is None:
+        return 'none'
+    v = ('list', 'tuple', 'array', 'list', 'set')[j % 5]
+    if v == 'set' and len(set(base)) != len(base):
+        v = 'list'
+    return v
+
+
+def _as_variant(v, base):
+    if v == 'none':
+        return None
+    if v == 'tuple':
+        return tuple(base)
+    if v == 'array':
+        import numpy as np
+        return np.array(base, dtype=int)
+    if v == 'set':
+        return set(base)
+    return list(base)
+
+
+def _observe(K, c):
+    """the observation of kind c['kind'] on the context object K (whose content is c['rows'])"""
     types, n = c['types'], len(c['rows'])
     kind = c['kind']
     if kind == 'cl':
+        from fcapy.lattice.pattern_concept import PatternConcept
         res = []
-        for A in c['subsets']:
+        for k, A in enumerate(c['subsets']):
             try:
-                d = K.intention_i(list(A))
+                arg = list(A) if k % 2 == 0 else tuple(A)      # CbO itself passes tuples
+                d = K.intention_i(arg)
                 e = ints(K.extension_i(d))
                 ee = _closure(K, e) if e else None
-                res.append({'int': canon_desc(types, d), 'cl': e, 'clcl': ee})
+                x = {'int': canon_desc(types, d), 'cl': e, 'clcl': ee}
+                if k % 3 == 0:
+                    objs = list(A) if k % 2 == 0 else [K.object_names[g] for g in A]
+                    pc = PatternConcept.from_objects(objs, K)
+                    x['fo'] = {'e': ints(pc.extent_i), 'i': canon_desc(types, dict(pc.intent_i)),
+                               'names': [str(g) for g in pc.extent]}
+                    x['fo_names_want'] = [str(K.object_names[g]) for g in pc.extent_i]
+                res.append(x)
             except Exception as ex:
                 res.append({'err': exc_name(ex)})
         return {'res': res}
@@ -444,9 +600,9 @@ def _impl(c):
         mat = []
         for desc in c['descs']:
             row = []
-            for base in c['bases']:
+            for jb, base in enumerate(c['bases']):
                 try:
-                    row.append(ints(K.extension_i(py_desc(desc), None if base is None else list(base))))
+                    row.append(ints(K.extension_i(py_desc(desc), _as_variant(_base_variant(jb, base), base))))
                 except Exception as ex:
                     row.append({'err': exc_name(ex)})
             mat.append(row)
@@ -483,6 +639,118 @@ def _impl(c):
     raise ValueError(kind)
 
 
+PRE_OPS = ('nbin', 'binarize', 'tobin', 'lat1000', 'lat0', 'cl', 'int0', 'data', 'hash')
+
+
+def _warm(K, ops, n):
+    """first use of the object: everything that could fill a memo; returns the values handed back to the caller"""
+    from fcapy.lattice import ConceptLattice
+    got = []
+    for op in ops:
+        try:
+            if op == 'nbin':
+                got.append(K.n_bin_attrs)
+                got.extend(ps.n_bin_attrs for ps in K.pattern_structures)
+            elif op == 'binarize':
+                got.append(K.binarize())
+            elif op == 'tobin':
+                got.append(list(K.to_bin_attr_extents()))
+            elif op == 'lat1000':
+                got.append(ConceptLattice.from_context(K, algo='CbO'))
+            elif op == 'lat0':
+                got.append(ConceptLattice.from_context(K, algo='CbO', n_projections_to_binarize=0))
+            elif op == 'cl':
+                for A in ([0], list(range(n)), [n - 1, 0]):
+                    d = K.intention_i(A)
+                    got.append(d)
+                    got.append(K.extension_i(d))
+                    got.append(K.extension_i(d, base_objects_i=A))
+            elif op == 'int0':
+                got.append(K.intention_i([]))
+            elif op == 'data':
+                # read only: `ps.data` / the cells of `K.data` ARE the structure's own storage (the getter hands the
+                # list out on purpose, it is also how a caller edits a column); they are not scribbled on
+                K.data
+                [ps.data for ps in K.pattern_structures]
+            elif op == 'hash':
+                got.append(K.hash_fixed())
+        except Exception:
+            pass        # e.g. the KeyError of finding D17 on the first content; the judged observation comes later
+    return got
+
+
+def _scribble(v, depth=0):
+    """in-place mutation of a value the library RETURNED to the caller (it must be the caller's own copy)"""
+    try:
+        import numpy as np
+    except Exception:
+        np = None
+    if depth > 3:
+        return
+    if isinstance(v, dict):
+        for x in list(v.values()):
+            _scribble(x, depth + 1)
+        try:
+            v.clear()
+        except Exception:
+            pass
+    elif isinstance(v, set):
+        v.add('q')
+        v.discard('a')
+    elif isinstance(v, list):
+        for x in v:
+            _scribble(x, depth + 1)
+        v.reverse()
+        v.append(10 ** 6)
+    elif np is not None and isinstance(v, np.ndarray) and v.flags.writeable:
+        try:
+            v[...] = -7
+        except Exception:
+            pass
+
+
+def _impl_hist(c):
+    """use -> mutate through public setters (or scribble on returned values / own inputs) -> use again, on ONE object"""
+    from fcapy.mvcontext import MVContext
+    cls = _ps_classes()
+    _SCALE[0] = c.get('scale')
+    types, rows0, rows = c['types'], c['rows0'], c['rows']
+    n = len(rows0)
+    names = [str(j) for j in range(len(types))]
+    data = [[_cell(t, v) for t, v in zip(types, r)] for r in rows0]
+    objn = [f'g{i}' for i in range(n)]
+    K = MVContext(data, {nm: cls[t] for nm, t in zip(names, types)}, attribute_names=names, object_names=objn)
+    got = _warm(K, c['pre'], n)
+    mut = c['mut']
+    if mut == 'data':
+        for j, t in enumerate(types):
+            if c.get('all_cols') or any(r0[j] != r[j] for r0, r in zip(rows0, rows)):
+                K.pattern_structures[j].data = [_cell(t, r[j]) for r in rows]
+    elif mut == 'ps':
+        K.pattern_structures = [cls[t]([_cell(t, r[j]) for r in rows], name=names[j]) for j, t in enumerate(types)]
+    elif mut == 'hostile':
+        for v in got:
+            _scribble(v)
+        for r in data:          # the caller's own table, after the context was built from it
+            for k in range(len(r)):
+                if isinstance(r[k], set):
+                    r[k].add('q')
+            r.reverse()
+        data.reverse()
+    if c.get('names2') is not None:
+        K.object_names = list(c['names2'])
+    if c.get('attr_names2') is not None:
+        K.attribute_names = list(c['attr_names2'])
+    sub = dict(c, kind=c['sub'])
+    return _observe(K, sub)
+
+
+def _impl(c):
+    if c['kind'] == 'hist':
+        return _impl_hist(c)
+    return _observe(make_mv(c), c)
+
+
 # ----------------------------------------------------------------------------------------------------------
 # Lean side
 
@@ -491,13 +759,15 @@ def lean_K(c):
     for j, t in enumerate(c['types']):
         cols.append({'t': 'I' if t in 'IN' else t, 'd': [r[j] for r in c['rows']]})
     n = len(c['rows'])
-    return {'n': n, 'names': [f'g{i}' for i in range(n)], 'cols': cols}
+    return {'n': n, 'names': list(c.get('names2') or [f'g{i}' for i in range(n)]), 'cols': cols}
 
 
 REQUESTS_NEED_IMPL = True
 
 
 def requests(c, io):
+    if c['kind'] == 'hist':
+        return requests(dict(c, kind=c['sub']), io)
     K = lean_K(c)
     kind = c['kind']
     if kind == 'cl':
@@ -521,6 +791,13 @@ def _canon_concepts(cs):
 
 
 def judge(c, io, rep):
+    if c['kind'] == 'hist':
+        # the second use is judged by the property on the CURRENT content (c['rows']), exactly like a fresh context
+        v = judge(dict(c, kind=c['sub']), io, rep)
+        if not v['ok']:
+            v = dict(v, detail=f"after first use {c['pre']} on {c['rows0']} and mutation '{c['mut']}' "
+                               f"(names: {c.get('names2')}): " + str(v.get('detail')))
+        return v
     kind = c['kind']
     n = len(c['rows'])
     if io.get('err') == 'NonTermination':
@@ -545,9 +822,18 @@ def judge(c, io, rep):
                 return dict(ok=False, kind='property', detail=f'closure not idempotent: {A} -> {x["cl"]} -> {x["clcl"]}')
             if sorted(x['int']) != sorted(y['int']):
                 return dict(ok=False, kind='property', detail=f'intention_i({A}) = {x["int"]}, most specific description: {y["int"]}')
+            if 'fo' in x:
+                fo = x['fo']
+                if sorted(fo['e']) != y['spec'] or sorted(fo['i']) != sorted(y['int']):
+                    return dict(ok=False, kind='property',
+                                detail=f'PatternConcept.from_objects({A}) = ({fo["e"]}, {fo["i"]}); closure {y["spec"]}, '
+                                       f'most specific description {y["int"]}')
+                if fo['names'] != x['fo_names_want']:
+                    return dict(ok=False, kind='property', detail=f'from_objects({A}): extent names {fo["names"]} do not '
+                                                                  f'name the extent {fo["e"]}')
             fs = frozenset(A)
             if fs in cl_of and cl_of[fs] != x['cl']:
-                return dict(ok=False, kind='property', detail=f'closure depends on the order of {A}')
+                return dict(ok=False, kind='property', detail=f'closure depends on how the object set {sorted(fs)} is listed ({A})')
             cl_of[fs] = x['cl']
         for A, ca in cl_of.items():
             for B, cb in cl_of.items():
@@ -556,7 +842,11 @@ def judge(c, io, rep):
         return dict(ok=True)
     if kind == 'conj':
         for d, row, lrow in zip(c['descs'], io['mat'], rep[0]['mat']):
-            for b, x, y in zip(c['bases'], row, lrow):
+            for jb, (b, x, y) in enumerate(zip(c['bases'], row, lrow)):
+                if _base_variant(jb, b) == 'set' and isinstance(x, list):
+                    # a set has no order of its own: compare as sets (the base is duplicate-free here)
+                    x, y = sorted(x), dict(y, spec=sorted(y['spec']), model={'ok': sorted(y['model'].get('ok', []))}
+                                           if 'ok' in y['model'] else y['model'])
                 if not y['typed']:
                     return dict(ok=False, kind='harness', detail=f'description {d} not well-typed for the model')
                 if y['model'] != {'ok': y['spec']}:
@@ -652,12 +942,17 @@ def nontrivial(c):
 
 def key(c):
     return [c['kind'], c['types'], c['rows'], c.get('descs') if c['stream'].startswith('random') else None,
-            c.get('subsets') if c['stream'].startswith('random') else None]
+            c.get('subsets') if c['stream'].startswith('random') else None,
+            c.get('sub'), c.get('rows0'), c.get('mut'), c.get('pre'), c.get('names2'), c.get('scale')]
 
 
 def branch(c, io, rep):
     out = [c['stream'], f"kind:{c['kind']}", f"types:{''.join(sorted(c['types']))}"]
-    if c['kind'] == 'lat' and rep and 'paths' in rep[0]:
+    if c['kind'] == 'hist':
+        out.append(f"hist:{c['mut']}:{c['sub']}" + (':names' if c.get('names2') else ''))
+    if c.get('scale'):
+        out.append('scale:non-float32' + ('+inf' if INF in c['scale'] else ''))
+    if c.get('sub', c['kind']) == 'lat' and rep and 'paths' in rep[0]:
         out += [f"path:{p['path']}" for p in rep[0]['paths']]
         out.append('bottomOK' if rep[0]['bottomOK'] else 'notBottomOK')
         out += [f"impl:{'err:' + p['err'] if 'err' in p else 'ok'}" for p in io.get('paths', [])]
@@ -665,7 +960,7 @@ def branch(c, io, rep):
 
 
 def signature(c, io, rep, v):
-    kind = c['kind']
+    kind = c.get('sub', c['kind']) if c['kind'] == 'hist' else c['kind']
     bok = None
     if rep and isinstance(rep[0], dict) and 'bottomOK' in rep[0]:
         bok = rep[0]['bottomOK']
@@ -680,7 +975,7 @@ def shrink(c):
     """smaller cases.  Two guards: (1) a case that BottomOK holds for is never shrunk into a table without BottomOK
     (it would slide into the known finding D17 and the genuine failure would be filed under it); (2) a case on which
     the implementation hit the time guard is reported as it is (every shrinking step would cost the full time limit)."""
-    if _case_id(c) in _TIMED_OUT:
+    if _case_id(c) in _TIMED_OUT or c['kind'] == 'hist':
         return
     keep_bottom = bottom_ok_py(c['types'], c['rows'])
     for d in _shrink(c):
@@ -695,6 +990,8 @@ def _shrink(c):
 
     def rebuild(nrows, ntypes):
         d = dict(stream=c['stream'], kind=c['kind'], types=list(ntypes), rows=nrows)
+        if c.get('scale'):
+            d['scale'] = c['scale']
         return fill(d)
     if n > 1:
         for i in range(n):
